@@ -47,6 +47,7 @@ type Scn struct {
 	MaxFailing int    `json:"max_failing_dials"`
 	Peers      int    `json:"peers_of_upstream0,omitempty"` // 2: upstream 0 dials two addresses (every connection goes to both)
 	V6         bool   `json:"ipv6_upstreams,omitempty"`     // the upstreams are IPv6 literals
+	MaxConns0  int    `json:"max_connections_upstream0,omitempty"` // an explicit limit on upstream 0 only; upstream 1 takes unhealthy_connection_count as its limit
 	SlowFail   bool   `json:"slow_fail,omitempty"`          // a failing dial may also fail only after 300 ms (e.g. a handshake that times out), so that dials to one peer overlap
 }
 
@@ -170,7 +171,7 @@ func execute(x *explore.Exec, sc *Scn) *result {
 		}
 		px := map[string]any{"handler": "proxy",
 			"upstreams": []map[string]any{
-				{"dial": dial0, "max_connections": sc.MaxConns},
+				{"dial": dial0, "max_connections": sc.MaxConns + sc.MaxConns0},
 				{"dial": []string{addrs[1]}, "max_connections": sc.MaxConns}},
 			"load_balancing": map[string]any{"selection": map[string]any{"policy": "first"},
 				"try_duration": fmt.Sprintf("%dms", sc.TryDurMS), "try_interval": fmt.Sprintf("%dms", sc.TryIntMS)},
@@ -297,6 +298,13 @@ func check(x *explore.Exec, sc *Scn, r *result) {
 	if maxConns == 0 {
 		maxConns = sc.Unhealthy
 	}
+	// the limit of each upstream: its own max_connections, else unhealthy_connection_count
+	limitOf := func(u int) int {
+		if u == 0 && sc.MaxConns0 > 0 {
+			return sc.MaxConns0
+		}
+		return maxConns
+	}
 	failDur := int64(sc.FailDurMS) * 1e6
 	type fail struct{ at int64 }
 	fails := [2][]int64{}
@@ -319,14 +327,14 @@ func check(x *explore.Exec, sc *Scn, r *result) {
 				return false
 			}
 		}
-		if maxConns > 0 {
+		if lim := limitOf(u); lim > 0 {
 			n := 0
 			for _, o := range opens[u] {
 				if t >= o.from && t < o.to {
 					n++
 				}
 			}
-			if n >= maxConns {
+			if n >= lim {
 				return false
 			}
 		}
@@ -401,14 +409,14 @@ func check(x *explore.Exec, sc *Scn, r *result) {
 			if maxConns > 0 && !availableIgnoringConns(u2b(d.Up), fails, failDur, maxFails, sc, activeDown, d.At) {
 				sig = "wrong-upstream"
 			}
-			if maxConns > 0 {
+			if lim := limitOf(d.Up); lim > 0 {
 				n := 0
 				for _, o := range opens[d.Up] {
 					if d.At >= o.from && d.At < o.to {
 						n++
 					}
 				}
-				if n >= maxConns {
+				if n >= lim {
 					sig = "max-connections-not-enforced"
 				}
 			}
@@ -592,6 +600,15 @@ func scenarios(tier string, yield0 func(any) bool) {
 				if !yield(&Scn{FailDurMS: 0, MaxFails: 0, TryDurMS: td, TryIntMS: 250, MaxConns: lim[0], Unhealthy: lim[1], Arrivals: arr, HoldMS: 1000, MaxFailing: 0}) {
 					return
 				}
+			}
+		}
+	}
+	// mixed limits: upstream 0 has its own max_connections, upstream 1 falls back to the
+	// handler-wide unhealthy_connection_count
+	for _, arr := range [][]int{{0, 100, 200, 300}, {0, 100, 200, 300, 1500}} {
+		for _, td := range []int{0, 1000} {
+			if !yield(&Scn{TryDurMS: td, TryIntMS: 250, MaxConns0: 2, Unhealthy: 1, Arrivals: arr, HoldMS: 1000}) {
+				return
 			}
 		}
 	}
